@@ -32,6 +32,43 @@ def resolve_cls_name(prog, module, e) -> str:
     return norm(e)
 
 
+def normalize_tuple(prog, module, e):
+    """Canonical tuple display of a tuple-valued expression: `a[:K] + (b,)` and `(*a[:K], b)` are the same value; a slice
+    bound given by a module constant is folded."""
+    from ..core import copy_ast
+
+    def fold_slice(sub):
+        sub = copy_ast(sub)
+        sl = sub.slice
+        if isinstance(sl, ast.Slice) and sl.upper is not None and not isinstance(sl.upper, ast.Constant):
+            try:
+                v = prog.fold(module, sl.upper)
+                if isinstance(v, int):
+                    sl.upper = ast.Constant(value=v)
+            except NotConst:
+                pass
+        return sub
+
+    if isinstance(e, ast.Tuple):
+        elts = []
+        for x in e.elts:
+            if isinstance(x, ast.Starred) and isinstance(x.value, ast.Subscript) and isinstance(x.value.slice, ast.Slice):
+                elts.append(ast.Starred(value=fold_slice(x.value), ctx=ast.Load()))
+            elif isinstance(x, ast.Starred) and isinstance(x.value, ast.Tuple):
+                elts.extend(normalize_tuple(prog, module, x.value).elts)
+            else:
+                elts.append(x)
+        return ast.copy_location(ast.Tuple(elts=elts, ctx=ast.Load()), e)
+    if isinstance(e, ast.BinOp) and isinstance(e.op, ast.Add):
+        l, r = normalize_tuple(prog, module, e.left), normalize_tuple(prog, module, e.right)
+        if isinstance(l, ast.Tuple) and isinstance(r, ast.Tuple):
+            return ast.copy_location(ast.Tuple(elts=list(l.elts) + list(r.elts), ctx=ast.Load()), e)
+        return e
+    if isinstance(e, ast.Subscript) and isinstance(e.slice, ast.Slice) and e.slice.lower is None and e.slice.step is None and e.slice.upper is not None:
+        return ast.copy_location(ast.Tuple(elts=[ast.Starred(value=fold_slice(e), ctx=ast.Load())], ctx=ast.Load()), e)
+    return e
+
+
 def pack_branches(prog, pack_obj: ast.FunctionDef) -> list[PackBranch]:
     """The if/elif chain on isinstance(obj, K) of pack_obj with the `packed = SUBTYPE, payload` assignments of each branch."""
     module = pack_obj._module
@@ -56,7 +93,16 @@ def pack_branches(prog, pack_obj: ast.FunctionDef) -> list[PackBranch]:
                 for n in ast.walk(s0):
                     if isinstance(n, ast.Assign) and isinstance(n.value, ast.Tuple) and len(n.value.elts) == 2 and \
                             any(isinstance(tt, ast.Name) for tt in n.targets):
-                        b.subtype_exprs.append((n, n.value.elts[0], n.value.elts[1]))
+                        payload = n.value.elts[1]
+                        defs = []
+                        if isinstance(payload, ast.Name):
+                            # payload held in a local: one entry per definition inside the branch (each under its own conditions)
+                            defs = [a for s1 in cur.body for a in ast.walk(s1) if isinstance(a, ast.Assign) and len(a.targets) == 1 and norm(a.targets[0]) == payload.id]
+                        if defs:
+                            for a in defs:
+                                b.subtype_exprs.append((a, n.value.elts[0], normalize_tuple(prog, module, a.value)))
+                        else:
+                            b.subtype_exprs.append((n, n.value.elts[0], normalize_tuple(prog, module, payload)))
             out.append(b)
         nxt = cur.orelse
         cur = nxt[0] if len(nxt) == 1 and isinstance(nxt[0], ast.If) else None
